@@ -73,6 +73,12 @@ def replay(hist, *, stop, adapter, unit="seconds", compress=False, srv=None, tea
                 if st != 200:
                     bad = mism("start-instance status", 200, (st, d))
                 stopped.discard(h["i"])
+            elif op == "StartMany":
+                st, d = srv.start_many(list(h["is"]), h["to"])
+                if st != 200:
+                    bad = mism("start-instances status", 200, (st, d))
+                for i in h["is"]:
+                    stopped.discard(i)
             elif op == "Begin":
                 st, d = srv.begin(h["i"], h["sc"], h["kv"])
                 if (st == 200) != (h["status"] == 200):
@@ -132,7 +138,11 @@ def replay(hist, *, stop, adapter, unit="seconds", compress=False, srv=None, tea
                     want = h.get("want", h["row"])
                     got = S.row_of(d, sc, srv.two)
                     if not _row_eq(want, got):
-                        bad = mism("stream-steps result (%s)" % op, want, got)
+                        if known is not None and want != h["row"] and _row_eq(h["row"], got):
+                            known.append(("D16b_no_replay", n, want, got))      # exactly the listed deviation's prediction
+                        else:
+                            bad = mism("stream-steps result (%s)" % op, want, got)
+                            bad["faithful_prediction"] = h["row"]
             elif op == "Results":
                 sc = sess.get(h["i"], "base")
                 st, d = srv.req("GET", "/%s/session-results" % srv.uid(h["i"]))
